@@ -796,6 +796,7 @@ func init() {
 		c.Group("C10/target-from-selector", "every peer added by a checker is placed on the store the selector returned, and only when it returned one", func() { ruleRepairTargets(c) })
 		c.Group("C10/co-location-inputs", "the isolation of a candidate is measured against the rule's own peers (rule checker) or the region's peers (replica checker)", func() { ruleCoLocationInputs(c) })
 		c.Group("C10/checker-selection", "the rule checker runs only with placement rules on, the replica and learner checkers only with them off", func() { ruleCheckerSelection(c) })
+		c.Group("C10/search-state", "(shared with C12) the fit the rule checker's orphan removal relies on: a better fit for a rule clears the fits of all later rules before they are searched again, orphans are exactly the unselected peers", func() { ruleFitSearchDiscipline(c) })
 		c.Group("C10/shrink-only-when-extra", "outright removals only with more voters than configured (replica checker) or as orphan with all rules satisfied (rule checker); replacements add before they remove", func() { ruleShrinkOnlyWhenExtra(c); ruleRulePeersCarryTheRuleRole(c); ruleReplacementAddsItsPeer(c) })
 	})
 }
